@@ -191,7 +191,8 @@ func logAnomalies(in input, plog [][]int, wlog [][]wev) (out []string) {
 					continue
 				}
 				stampSource(m, d.IP, in.IgnoreHost)
-				want[[2]int{gostatsd.Bucket(m.Name, m.FormatTagsKey(), in.Shards), b}] = true
+				tagStage(m, in.StaticTags)
+				want[[2]int{gostatsd.Bucket(m.Name, gostatsd.FormatTagsKey(m.Source, m.Tags), in.Shards), b}] = true
 				m.Done()
 			}
 		}
